@@ -121,6 +121,20 @@ Print Assumptions C16_closure_is_run_before_repair_refuted.
 Print Assumptions C16_inputs_unchanged_before_repair_refuted.
 Print Assumptions C16_concurrent_before_repair_refuted.
 
+(* the interleavings of C16_concurrent include OVERLAPPED calls: the second call of one closure acts while
+   the first is in flight, and both finish with their own arguments *)
+Theorem C16_overlap_admitted :
+  let pA := closure_call true w3_cl [] (sl 1 0 1 1) in
+  let pB := closure_call true w3_cl [] (sl 2 0 1 1) in
+  exists p1 h1 p2 h2 q1 h3 q2 h4 a b hf,
+    step pA w3_h0 = Some (p1, h1) /\ step p1 h1 = Some (p2, h2) /\
+    step pB h2 = Some (q1, h3) /\ step q1 h3 = Some (q2, h4) /\
+    step p2 h4 <> None /\ step q2 h4 <> None /\
+    par_run p2 q2 h4 a b hf /\ par_run pA pB w3_h0 a b hf /\
+    a = ["echo"; "x"; "a"] /\ b = ["echo"; "x"; "b"] /\ firstn (length w3_h0) hf = w3_h0.
+Proof. exact overlap_admitted. Qed.
+Print Assumptions C16_overlap_admitted.
+
 (* non-vacuity: a closure with cmd "$C", baked-in slice off 1 / len 2 / cap 3 of a 4-cell array, called
    without and with extra arguments around a Setenv, direct Output and RunWith on the same arrays;
    and the interleaving that breaks the old code, run on the current code *)
